@@ -233,6 +233,7 @@ package gonum
 //@       (m == 0 || n == 0 || (ge(a, rowA, colA, lda) && ge(b, rowB, colB, ldb) && ge(c, m, n, ldc)))
 //@ panics iff !valid, before-writes
 //@ writes c[i*ldc+j] for i in 0..m, j in 0..n
+//@ reads a[i*lda+j] for i in 0..rowA, j in 0..colA ; b[i*ldb+j] for i in 0..rowB, j in 0..colB
 
 //@ func dgemmSerial sgemmSerial props: C01(frame) C07(safety)
 //@ let rowA = ite(aTrans, k, m)
@@ -259,6 +260,7 @@ package gonum
 //@ requires m >= 0 && n >= 0 && k >= 0 && lda >= max(1, colA) && ldb >= max(1, colB) && ldc >= max(1, n)
 //@ requires ge(a, rowA, colA, lda) && ge(b, rowB, colB, ldb) && ge(c, m, n, ldc) && (m == 0 || n > 0)
 //@ writes c[i*ldc+j] for i in 0..m, j in 0..n
+//@ reads a[i*lda+j] for i in 0..rowA, j in 0..colA ; b[i*ldb+j] for i in 0..rowB, j in 0..colB
 //@ go-requires i % blockSize == 0 && j % blockSize == 0 && 0 <= i && i < m && 0 <= j && j < n
 //@ go-footprint c[(i+r)*ldc+j+s] for r in 0..min(blockSize, m-i), s in 0..min(blockSize, n-j)
 
